@@ -205,6 +205,34 @@ theorem C05_circconv_arith (dims : List Nat) (ws wis : List K) (s c : K) (HA HB 
     simp only [zero_mul, add_zero] at this
     rw [div_eq_mul_inv, mul_comm, ← this]; congr 1; funext f; rw [div_eq_mul_inv, mul_comm]
 
+/-- **Derived objects inside further arithmetic (stacks of stacks, arithmetic on stacks, …).**  The
+    invariant "`o` denotes the matrix `D`" (`Sound o D`: eval = `D·x`, adj = `Dᴴ·y`, class payload = `D`,
+    declared sizes) is closed under every node of the calculus, whatever built the operands — an
+    expression (`build_sound`), a `VerticalStack` / `DiagonalStack` (`vstack_sound`, `dstack_sound`, whose
+    operands may themselves be stacks), or any combination: `a ± b`, `−a`, `c·a`, `a/c`, `a(b)`, `a @ b`,
+    `.T`, `.H`, `.conj()`, `gram_op` of such objects denote the same construction on their matrices, and
+    stacking such objects denotes the block matrix of their matrices. -/
+theorem C05_sound_closed (a b : Obj K) (Da Db : Mx K) (ha : Sound a Da) (hb : Sound b Db) (c : Scal K) :
+    (∀ sub o, addSub Cfg.fixed sub a b = .ok o → Sound o (fun i j => pm sub (Da i j) (Db i j)))
+    ∧ (∀ o, neg Cfg.fixed a = .ok o → Sound o (fun i j => - Da i j))
+    ∧ (∀ o, smul Cfg.fixed a c = .ok o → Sound o (fun i j => c.val * Da i j))
+    ∧ (∀ o, sdiv Cfg.fixed a c = .ok o → Sound o (fun i j => Da i j / c.val))
+    ∧ (∀ o, call Cfg.fixed a b = .ok o → Sound o (matMul a.n Da Db))
+    ∧ (∀ o, matmul Cfg.fixed a b = .ok o → MatmulPlain a b → Sound o (matMul a.n Da Db))
+    ∧ (∀ o, opT Cfg.fixed a = .ok o → Sound o (matT Da))
+    ∧ (∀ o, opH Cfg.fixed a = .ok o → Sound o (matH Da))
+    ∧ (∀ o, opConj Cfg.fixed a = .ok o → Sound o (matConj Da))
+    ∧ (∀ o, opGram Cfg.fixed a = .ok o → Sound o (matMul a.m (matH Da) Da))
+    ∧ (∀ collapse o, vstack true [a, b] collapse = .ok o → Sound o (vcatMx [a, b] [Da, Db]))
+    ∧ (∀ ci co o, dstack true [a, b] ci co = .ok o → Sound o (bdiagMx [a, b] [Da, Db])) :=
+  ⟨fun sub _ h => (addSub_sound sub ha hb h).1, fun _ h => (neg_sound ha h).1,
+   fun _ h => (smul_sound c ha h).1, fun _ h => (sdiv_sound c ha h).1,
+   fun _ h => (call_sound ha hb h).1, fun _ h hp => (matmul_sound ha hb hp h).1,
+   fun _ h => (opT_sound ha h).1, fun _ h => (opH_sound ha h).1, fun _ h => (opConj_sound ha h).1,
+   fun _ h => (opGram_sound ha h).1,
+   fun collapse _ h => (vstack_sound collapse (.cons ha (.cons hb .nil)) h).1,
+   fun ci co _ h => (dstack_sound ci co (.cons ha (.cons hb .nil)) h).1⟩
+
 /-- the declared `matrix_shape` is the shape of the denoted matrix, and a linear expression is
     always built as a `LinearOperator` -/
 theorem C05_matrix_shape (e : LExpr K) (m : Meta) (hm : infer e = .ok m) (hl : Lin e)
@@ -399,6 +427,11 @@ def cvA : ConvOp ℚ := ⟨fun m => [1, 2].getD m 0, 2, 3, .full, .f64, .f64⟩
 def cvB : ConvOp ℚ := ⟨fun m => [3, -1].getD m 0, 2, 3, .full, .f64, .f64⟩
 example : ∃ r, ConvOp.addSub false cvA cvB = .ok r := ⟨_, rfl⟩
 example : ∃ e, ConvOp.addSub false cvA { cvB with mode := .same, n := 4 } = .error e := ⟨_, rfl⟩
+
+/-- a stack of a stack and a matrix, then `.H` of it: accepted (so `C05_sound_closed` applies twice) -/
+example : ∃ v w h, buildVStack true [exM, LExpr.ident (.plain [3]) .f64] true = .ok v
+    ∧ vstack true [v, mkMat 2 3 .f64 (fun _ _ => (1 : ℚ))] false = .ok w ∧ opH Cfg.fixed w = .ok h
+    ∧ h.md.inShape = .nested [[2, 3], [2]] := ⟨_, _, _, rfl, rfl, rfl, rfl⟩
 
 end examples
 
